@@ -641,12 +641,16 @@ func checkIterateStopAndReport(r *Reporter, p *Prog, pkg string, fd *ast.FuncDec
 	// function whose declaration is in this package
 	var litBody *ast.BlockStmt
 	var litPos token.Pos
+	lostWhy := ""
 	ast.Inspect(fd.Body, func(n ast.Node) bool {
 		if c, ok := n.(*ast.CallExpr); ok {
 			if se, ok := ast.Unparen(c.Fun).(*ast.SelectorExpr); ok && ((so.IsIteration == nil && fieldSel(info, se.X, "kv")) || (so.IsIteration != nil && so.IsIteration(c))) {
 				for _, a := range c.Args {
 					if b, pos := callableBody(p, info, a); b != nil {
 						litBody, litPos = b, pos
+						if why := valueReceiverLoses(p, info, a); why != "" {
+							lostWhy = why
+						}
 					}
 				}
 			}
@@ -655,6 +659,10 @@ func checkIterateStopAndReport(r *Reporter, p *Prog, pkg string, fd *ast.FuncDec
 	})
 	if litBody == nil {
 		r.Fail("iterate/stop-and-report", key, p.posStr(fd.Pos()), "no consumer (function literal or method value) passed to the store iteration")
+		return
+	}
+	if lostWhy != "" {
+		r.Fail("iterate/stop-and-report", key, p.posStr(fd.Pos()), "the error the consumer records never reaches the iterating function: "+lostWhy)
 		return
 	}
 	lit := struct{ Body *ast.BlockStmt }{litBody}
